@@ -76,6 +76,8 @@ func runC19(w *World, r *Report, tier string) {
 	r.Rule("GLOBALS", "every package-level variable of the module is written only by its package initialiser")
 	ruleGoShared(w, r)
 	rulePoolReset(w, r)
+	rulePoolUseAfterPut(w, r)
+	ruleHashKey(w, r)
 	r.Rule("EFFECT-GLOBAL", "no function reachable from an exported function or method (dependencies included) writes memory reachable from a package-level variable of a non-standard-library package")
 	r.Rule("EFFECT-PARAM", "no exported function or method writes memory reachable from its parameters; methods named Set*/Reset* and HighSpatialID.Merge may write their receiver only")
 	r.Rule("EFFECT-UNKNOWN", "no reachable write goes through an address whose origin the analysis cannot trace")
